@@ -136,7 +136,11 @@ def run_case(case: dict[str, Any]) -> dict[str, Any]:
                 opted = bool((ix.specs[h].get('opts') or {}).get('deleted'))
                 if oks and any(r.g > oks[0]['g'] for r in relists):
                     cov['relist_after_resume'] += 1
-                if len(finals) > 1:
+                # the record of a completion cannot be kept if the object is gone when it is to be written (404): the events still queued for
+                # the gone object are then processed without it (the same exemption as in C02)
+                lost_404 = [r for r in w.requests if r.client == name and r.kind == 'patch' and r.status == 404 and finals and r.g > finals[0]['g']
+                            and r.name == (w.history[uid][0]['body']['metadata'].get('name'))]
+                if len(finals) > 1 and not lost_404:
                     viol.append({'mech': 'resumed-twice', 'msg': f"{h} completed {len(finals)} times for {uid} within the operator process {name} "
                                  f"(at t={[c['t'] for c in finals]}; {len(relists)} re-listings in that process)", 'witness': None})
                 if not listed and calls:
